@@ -17,6 +17,11 @@ class Found(Exception):
     """Raised inside a Hypothesis test when the oracle reports a violation that is not a listed known finding."""
 
 
+def _raise_found(msg):
+    # one raise site: Hypothesis tells failures apart by where they were raised and calls a case "flaky" if that changes on replay
+    raise Found(msg)
+
+
 class HarnessAbort(BaseException):
     """Raised to stop Hypothesis when the harness itself failed."""
 
@@ -68,7 +73,7 @@ def run_hyp_part(mod, part, stats, tier, seed, deadline, known):
     from hypothesis import given, settings, seed as hseed, HealthCheck, Phase, Verbosity
     strategy = part.strategy(tier)
     n = int(part.examples[tier])
-    state = {'last_fail': None, 'harness': None}
+    state = {'last_fail': None, 'harness': None, 'failed': {}}
 
     def body(case):
         if time.time() > deadline:
@@ -77,8 +82,9 @@ def run_hyp_part(mod, part, stats, tier, seed, deadline, known):
                 return
             # a failure is being shrunk: never turn the known failing case into a pass (Hypothesis would call the test
             # flaky); past a grace period stop exploring smaller candidates and let it finish with what it has
-            if case == state['last_fail']['case']:
-                raise Found(state['last_fail']['outcome']['msg'])
+            if (h := common.case_hash(case)) in state['failed']:       # any case already seen failing keeps failing
+                state['last_fail'] = state['failed'][h]
+                _raise_found(state['last_fail']['outcome']['msg'])
             if time.time() > deadline + 40:
                 return
         try:
@@ -94,7 +100,8 @@ def run_hyp_part(mod, part, stats, tier, seed, deadline, known):
                 stats.known_hits[e['id']] = stats.known_hits.get(e['id'], 0) + 1
                 return
             state['last_fail'] = {'case': case, 'outcome': out}
-            raise Found(out['msg'])
+            state['failed'][common.case_hash(case)] = state['last_fail']
+            _raise_found(out['msg'])
 
     test = hseed(seed)(settings(max_examples=n, database=None, deadline=None, derandomize=False,
                                 report_multiple_bugs=False, suppress_health_check=list(HealthCheck),
